@@ -118,7 +118,7 @@ def run_history(args):
     if before != after:
         diff = [a[0] for a, b in zip(before, after) if a != b][:3]
         bad = bad or 'module/class-level state changed: %s' % diff
-    return (bad, raised, want[0] == 'E')
+    return (bad, raised, want[0] == 'E', got)
 
 def run_threads(args):
     seed, jobs = args
@@ -146,13 +146,20 @@ def search(ctx, budget):
     for _ in range(ctx.n(400, 20000) * budget):
         nobj = ctx.rng.choice([1, 1, 2, 3])
         h = make_history(ctx.rng, nobj)
-        probe = (ctx.rng.choice(['act', 'doc', 'judgment', 'bill']), ctx.rng.choice(PROBES) if ctx.rng.random() < 0.7 else gen.gen_doc(ctx.rng, 'act'))
+        # (root names as callers may write them: the documented lower-case alias too)
+        probe = (ctx.rng.choice(['act', 'doc', 'judgment', 'bill', 'debatereport', 'debateReport', 'statement']), ctx.rng.choice(PROBES) if ctx.rng.random() < 0.7 else gen.gen_doc(ctx.rng, 'act'))
         jobs.append((ctx.rng.randrange(1 << 30), nobj, h, probe))
     res = impl.pmap(run_history, jobs, chunk=8)
-    for j, r in zip(jobs, res):
+    # the reference for every probe is also computed by the extracted model, which has no state at all: a "fresh object" of the same
+    # process is no reference when the state that leaks is at module level
+    ref = [stages.norm_model_xml(y) for y in model.run([['e2e', URI, j[3][0], '', j[3][1]] for j in jobs])]
+    for j, r, want in zip(jobs, res, ref):
         ctx.evaluations += 1; ctx.count('histories'); ctx.count('raising_calls', r[1])
-        if r[0]:
-            ctx.failures.append(({'stage': 'obj', 'seed': j[0], 'objects': j[1], 'history': j[2], 'probe': j[3]}, r[0]))
+        bad = r[0]
+        if not bad and any(g != want for g in r[3]):
+            bad = 'probe after the history differs from the history-free reference (the extracted model)'
+        if bad:
+            ctx.failures.append(({'stage': 'obj', 'seed': j[0], 'objects': j[1], 'history': j[2], 'probe': j[3]}, bad))
         elif r[1] >= 1 and r[2]:
             ctx.nontrivial(repr(j[2:]))
     if not ctx.quick or budget > 1:
@@ -175,7 +182,9 @@ def replay(obj):
         print('nothing to replay:', obj.get('broken_obligations')); return 1
     if case.get('stage') == 'obj':
         r = run_history((case['seed'], case['objects'], [tuple(c) for c in case['history']], tuple(case['probe'])))
-        print(r); return 1 if r[0] else 0
+        want = stages.norm_model_xml(model.run([['e2e', URI, case['probe'][0], '', case['probe'][1]]])[0])
+        differs = any(g != want for g in r[3])
+        print(r[:3], 'differs from the model:', differs); return 1 if (r[0] or differs) else 0
     if case.get('stage') == 'threads':
         r = run_threads((case['seed'], [tuple(j) for j in case['jobs']])); print(r); return 1 if r else 0
     return 0 if stages.replay_stage(case) else 1
